@@ -121,20 +121,71 @@ def run(ctx):
         if not (p.frozen and p.eq and p.slots and not p.unsafe_hash):
             fails.append({"what": f"dataclass parameters are not frozen/eq/slots: {p}", "class": cl.keys[i]})
     insts = codec.gen_instances(cl, list(range(len(cl))), 2 if thorough else 1, rng, big_strings=False)
+    def safe_exercise(obj, key):
+        try:
+            exercise(obj, key, rng, fails, ops_seen)
+        except Exception as e:  # noqa: BLE001 - an operation every dataclass value supports raised
+            fails.append({"what": f"a value operation raised {type(e).__name__}: {e}", "class": key})
+
     for i, a, obj in insts:
-        exercise(obj, cl.keys[i], rng, fails, ops_seen)
+        safe_exercise(obj, cl.keys[i])
         n += 1
     # the record classes
     from kio.records.schema import NewRecordBatch, Record, RecordBatch, RecordHeader
     for _ in range(20):
         nb = recgen.build_new_batch(recgen.gen_new_batch(rng))
         for o in (nb, nb.records[0]) + ((nb.records[0].headers[0],) if nb.records[0].headers else ()):
-            exercise(o, "kio.records.schema:" + type(o).__name__, rng, fails, ops_seen)
+            safe_exercise(o, "kio.records.schema:" + type(o).__name__)
             n += 1
     for c in (NewRecordBatch, Record, RecordBatch, RecordHeader):
         p = c.__dataclass_params__
         if not (p.frozen and p.eq and p.slots):
             fails.append({"what": f"record class parameters: {p}", "class": c.__name__})
+        for f in dataclasses.fields(c):
+            if not (f.compare and f.init) or f.default_factory is not dataclasses.MISSING:
+                fails.append({"what": f"record class field {f.name} does not take part in init/comparison", "class": c.__name__})
+        hq = getattr(c.__hash__, "__qualname__", "")
+        if hq != f"{c.__qualname__}.__hash__":
+            fails.append({"what": f"record class {c.__name__} does not use the dataclass-generated __hash__ ({hq})", "class": c.__name__})
+    # hashing must not change an instance, and hash/equality must stay consistent when an instance
+    # travels to another process (str/bytes hashes are salted per process)
+    import os, pickle as _p, subprocess, tempfile
+    sample = []
+    for _ in range(12):
+        nb = recgen.build_new_batch(recgen.gen_new_batch(rng))
+        sample += [nb, nb.records[0]]
+    sample += [obj for _, _, obj in insts[:: max(1, len(insts) // 40)]]
+    blobs = []
+    for o in sample:
+        before = _p.dumps(o)
+        hash(o)
+        after = _p.dumps(o)
+        n += 1
+        if before != after:
+            fails.append({"what": "hashing an instance changes its state (pickle differs before/after hash())",
+                          "class": type(o).__module__ + ":" + type(o).__qualname__})
+        blobs.append(after)
+    with tempfile.NamedTemporaryFile(dir=common.CACHE, suffix=".pkl", delete=False) as fh:
+        _p.dump(blobs, fh)
+        path = fh.name
+    child = ("import sys, pickle, dataclasses\n"
+             "sys.path.insert(0, %r)\n"
+             "bad = []\n"
+             "for b in pickle.load(open(sys.argv[1], 'rb')):\n"
+             "    o = pickle.loads(b)\n"
+             "    fresh = type(o)(**{f.name: getattr(o, f.name) for f in dataclasses.fields(o) if f.init})\n"
+             "    if o != fresh or hash(o) != hash(fresh):\n"
+             "        bad.append(type(o).__module__ + ':' + type(o).__qualname__)\n"
+             "print('BAD ' + ','.join(sorted(set(bad))) if bad else 'OK')\n") % os.path.join(common.REPO, "src")
+    for seed_env in ("1", "2"):
+        r = subprocess.run([common.PY, "-c", child, path], stdout=subprocess.PIPE, stderr=subprocess.PIPE,
+                           env={**os.environ, "PYTHONHASHSEED": seed_env}, timeout=300)
+        out = r.stdout.decode().strip()
+        ops_seen.add("pickle-to-other-process")
+        if not out.startswith("OK"):
+            fails.append({"what": "an unpickled instance in another process is not equal to / does not hash like an equal fresh instance",
+                          "class": out[:300] or r.stderr.decode()[-300:]})
+    os.unlink(path)
     ctx.coverage.update({
         "evaluations": n, "distinct_nontrivial": n,
         "rule": "one generated instance per shipped class (two in thorough) plus record classes; each put through "
